@@ -1,5 +1,5 @@
 //@ unit u_comp
-//@ depends u_graph
+//@ depends u_graph u_bfs
 // C10 (outer loops only): connected_components / weakly_connected_components / number_of_connected_components /
 // node_connected_component: the WrongMethod guards, and that every node ends up in some returned set. The reachability
 // content lives in breadth_first_search / plain_bfs (hash-set union pipelines), which are ASSUMED here (A5) to return a list
@@ -20,6 +20,7 @@ broadcast use {f64ax::group_f64_axioms, dispax::axiom_display_total, cloneax::ax
 //@ include graph_spec.rs
 //@ include-assumed adjvec.rs u_graph
 //@ include-assumed graph_fns.rs u_graph
+//@ include-assumed bfs_fns.rs u_bfs
 
 // ---- A5: assumed contracts on unverified graphrs functions (iterator / hash-set pipelines) ----
 impl<T, A> Graph<T, A>
@@ -40,20 +41,6 @@ where
         forall|i: int| 0 <= i < r@.len() ==> *(#[trigger] r@[i]) == self.nodes_vec@[i].name,
 //@ end
 
-//@ extract fn src/graph/query.rs breadth_first_search ty=Graph nobody
-//@ head
-    #[verifier::external_body]
-//@ rewrite
--> Vec<T>
-//@ with
--> (r: Vec<T>)
-//@ spec
-    requires
-        self.wf_nodes(),
-        self.knows(*node_name),
-    ensures
-        r@.contains(*node_name),
-//@ end
 }
 
 //@ extract fn src/algorithms/components/weak_connectivity.rs plain_bfs nobody
@@ -103,26 +90,37 @@ for v in graph.get_all_node_names()
 //@ with
 for v in it: graph.get_all_node_names()
 //@ rewrite
-graph.breadth_first_search(&v).to_hashset()
+let bfs = graph.breadth_first_search(&v).to_hashset();
 //@ with
-vto_hashset(graph.breadth_first_search(&v))
+let bfs_list = graph.breadth_first_search(&v);
+            let ghost ov = bfs_list@;
+            let bfs = vto_hashset(bfs_list);
 //@ rewrite
 seen.union(&bfs).cloned().collect()
 //@ with
 vset_union(&seen, &bfs)
 //@ spec
     requires
-        graph.wf_nodes(),
+        graph.wf_nodes(), graph.wf_rows(), graph.wf_index_members(),
+        // on an undirected graph with mirrored traversal rows steps are symmetric (u_trav: lemma_steps_symmetric)
+        !graph.specs.directed ==> steps_symmetric(*graph),
     ensures
         // [C10.cc.wrong_method_on_directed]
         graph.specs.directed ==> is_err_kind(r, ErrorKind::WrongMethod),
         !graph.specs.directed ==> r.is_ok(),
         // [C10.cc.every_node_in_some_set]
         r.is_ok() ==> forall|i: int| 0 <= i < graph.n() ==> covered(r.unwrap()@, #[trigger] graph.nodes_vec@[i].name),
+        // [C10.cc.each_set_is_the_reachable_set_of_a_node]
+        r.is_ok() ==> forall|k: int| 0 <= k < r.unwrap()@.len() ==> is_reach_set(*graph, #[trigger] r.unwrap()@[k]@),
+        // [C10.cc.sets_are_pairwise_disjoint]
+        r.is_ok() ==> forall|j: int, k: int, x: T| 0 <= j < k < r.unwrap()@.len() && #[trigger] r.unwrap()@[j]@.contains(x) && #[trigger] r.unwrap()@[k]@.contains(x) ==> false,
 //@ loop 1
         invariant
-            graph.wf_nodes(),
-            forall|x: T| seen@.contains(x) ==> covered(return_vec@, x),
+            graph.wf_nodes(), graph.wf_rows(), graph.wf_index_members(),
+            forall|x: T| seen@.contains(x) <==> covered(return_vec@, x),
+            !graph.specs.directed && steps_symmetric(*graph),
+            forall|k: int| 0 <= k < return_vec@.len() ==> is_reach_set(*graph, #[trigger] return_vec@[k]@),
+            forall|j: int, k: int, x: T| 0 <= j < k < return_vec@.len() && #[trigger] return_vec@[j]@.contains(x) && #[trigger] return_vec@[k]@.contains(x) ==> false,
             forall|j: int| 0 <= j < it.index@ ==> covered(return_vec@, #[trigger] graph.nodes_vec@[j].name),
 //@ before seen = seen.union(&bfs).cloned().collect();
             let ghost seen_before = seen@;
@@ -139,10 +137,40 @@ vset_union(&seen, &bfs)
                 assert forall|x: T| bfs_view.contains(x) implies covered(return_vec@, x) by {
                     assert(return_vec@[rv0.len() as int]@.contains(x));
                 }
-                assert forall|x: T| seen@.contains(x) implies covered(return_vec@, x) by {
-                    if !bfs_view.contains(x) {
+                assert forall|x: T| seen@.contains(x) <==> covered(return_vec@, x) by {
+                    if seen@.contains(x) && !bfs_view.contains(x) {
                         assert(seen_before.contains(x));
                         assert(covered(rv0, x));
+                    }
+                    if covered(return_vec@, x) {
+                        let c = choose|c: int| 0 <= c < return_vec@.len() && #[trigger] return_vec@[c]@.contains(x);
+                        if c < rv0.len() { assert(return_vec@[c] == rv0[c]); assert(covered(rv0, x)); }
+                    }
+                }
+                // the new set is the reachable set of v ...
+                assert(reach_set_of(*graph, *v, ov, bfs_view));
+                assert forall|k: int| 0 <= k < return_vec@.len() implies is_reach_set(*graph, #[trigger] return_vec@[k]@) by {
+                    if k < rv0.len() { assert(return_vec@[k] == rv0[k]); assert(is_reach_set(*graph, rv0[k]@)); }
+                }
+                // ... and meets no earlier set: an earlier set is closed under steps, so it would contain v, which was not seen
+                assert forall|j: int, k: int, x: T| 0 <= j < k < return_vec@.len() && #[trigger] return_vec@[j]@.contains(x) && #[trigger] return_vec@[k]@.contains(x) implies false by {
+                    if k == rv0.len() {
+                        assert(return_vec@[j] == rv0[j]);
+                        assert(is_reach_set(*graph, rv0[j]@));
+                        let (st, oj) = choose|st: T, oj: Seq<T>| #[trigger] reach_set_of(*graph, st, oj, rv0[j]@);
+                        assert(closed_under_steps(*graph, rv0[j]@)) by {
+                            assert forall|a: T, y: T| rv0[j]@.contains(a) && #[trigger] steps_to(*graph, a, y) implies rv0[j]@.contains(y) by {
+                                assert(oj.contains(a));
+                                assert(oj.contains(y));
+                            }
+                        }
+                        assert(ov.contains(x));
+                        let i = choose|i: int| 0 <= i < ov.len() && ov[i] == x;
+                        lemma_reaches_back(*graph, *v, ov, i, rv0[j]@);
+                        assert(covered(rv0, *v));
+                        assert(seen_before.contains(*v));
+                    } else {
+                        assert(return_vec@[j] == rv0[j] && return_vec@[k] == rv0[k]);
                     }
                 }
             }
@@ -218,7 +246,8 @@ vset_union(&seen, &bfs)
 -> (r: Result<usize, Error>)
 //@ spec
     requires
-        graph.wf_nodes(),
+        graph.wf_nodes(), graph.wf_rows(), graph.wf_index_members(),
+        !graph.specs.directed ==> steps_symmetric(*graph),
     ensures
         // [C10.ncc.wrong_method_on_directed]
         graph.specs.directed ==> is_err_kind(r, ErrorKind::WrongMethod),
@@ -236,7 +265,7 @@ Ok(bfs.to_hashset())
 Ok(vto_hashset(bfs))
 //@ spec
     requires
-        graph.wf_nodes(),
+        graph.wf_nodes(), graph.wf_rows(), graph.wf_index_members(),
         graph.knows(*node_name),
     ensures
         // [C10.node_cc.guard_and_contains_the_node]
